@@ -374,19 +374,43 @@ class Replayer:
         chain.reverse()
         return idx, chain
 
-    def reference(self, hist, abs_objs, idx):
+    def reference(self, hist, abs_objs, idx, fresh=False):
+        """Observation of the object built from its derivation chain alone.  Normally the references of
+        one replayer share one catalogue of nodes (fresh base graphs per reference); fresh=True rebuilds
+        on a brand-new catalogue (used to double-check before a finding is reported)."""
         root, chain = self.chain_of(hist, abs_objs, idx)
         key = (root, tuple((k, op["op"], tuple(op["arg"])) for k, op in chain))
-        if key not in self._ref_cache:
-            if self._ref_cat is None:
-                self._ref_cat = Catalogue()
-            o = self._ref_cat.base(self.scenario)[root - 1]      # fresh base objects over the reference nodes
+        if fresh or key not in self._ref_cache:
+            if fresh or self._ref_cat is None:
+                cat = Catalogue()
+                if not fresh:
+                    self._ref_cat = cat
+            else:
+                cat = self._ref_cat
+            o = cat.base(self.scenario)[root - 1]      # fresh base objects
             for k, op in chain:
-                o = api_apply(self._ref_cat, op, o, k)
-            self._ref_cache[key] = observe(o, run=self.runs)
+                o = api_apply(cat, op, o, k)
+            snap = observe(o, run=self.runs)
+            if fresh:
+                return snap
+            self._ref_cache[key] = snap
             if len(self._ref_cache) > 200000:
                 self._ref_cache.clear()
         return self._ref_cache[key]
+
+    def ref_diff(self, hist, abs_objs, idx, s):
+        """Observables on which object idx differs from its chain-only reference (double-checked)."""
+        try:
+            ref = self.reference(hist, abs_objs, idx)
+            d = diff(ref, s, ident=False)
+            if d:
+                ref = self.reference(hist, abs_objs, idx, fresh=True)
+                d = diff(ref, s, ident=False)
+                if not d:
+                    self.stats["contaminated_reference"] = self.stats.get("contaminated_reference", 0) + 1
+            return d, ref
+        except Exception as e:  # noqa: BLE001 - the chain cannot be rebuilt (only on a broken tree)
+            return ["chain-rebuild:" + type(e).__name__], {}
 
     # -- one step on a pool; returns False when the pool may be contaminated
     def step(self, pool, hist, abs_objs, op, abs_new, check=True):
@@ -452,8 +476,7 @@ class Replayer:
             # independence: equal to the object built from its chain alone
             if self.refs:
                 self.stats["ref_compares"] += 1
-                ref = self.reference(hist, abs_objs + [abs_new], idx + 1)
-                d = diff(ref, s, ident=False)
+                d, ref = self.ref_diff(hist, abs_objs + [abs_new], idx + 1, s)
                 if d:
                     clean = False
                     self._find(f"sibling-influenced:{op['op']}", hist,
@@ -548,24 +571,45 @@ class Replayer:
             pool.objs.append(new)
             pool.snaps.append(None)
 
-    @staticmethod
-    def _blame(hist, i):
-        """Lazy replay sees an object late: name the first derivation applied TO it if there is one
-        (it changed as a receiver), otherwise the last derivation of the history (it was influenced)."""
-        mine = [op for op in hist if op["tgt"] == i + 1 and op["op"] not in OBSERVATIONS]
-        if mine:
-            return "receiver-changed", mine[0]
-        ders = [op for op in hist if op["op"] not in OBSERVATIONS]
-        return "sibling-influenced", (ders[-1] if ders else {"op": "base", "tgt": 0, "arg": []})
+    def _lazy_culprit(self, hist, i):
+        """Lazy replay sees an object late.  Find the shortest prefix of the history after which the
+        object (observed cold, on fresh objects) differs from its chain-only reference: its last operation
+        is the culprit.  Only executed when something was found."""
+        abs_all = self._abs_all
+        nb = len(self.base_abs)
+        start = abs_all[i]["born"] if i >= nb else 1
+        for k in range(max(1, start), len(hist) + 1):
+            try:
+                pool = Pool(self.scenario, self.apply)
+                for j, op in enumerate(hist[:k]):
+                    recv = pool.objs[op["tgt"] - 1]
+                    if op["op"] == "observe":
+                        observe(recv, run=False)
+                    elif op["op"] == "run":
+                        run_graph(recv)
+                    else:
+                        pool.objs.append(pool.apply(pool.cat, op, recv, j + 1))
+                s = observe(pool.objs[i], run=self.runs)
+                if diff(self.reference(hist, abs_all, i + 1, fresh=True), s, ident=False):
+                    return k
+            except Exception:  # noqa: BLE001
+                return k
+        return len(hist)
 
     def _lazy_changed(self, hist, i, d, text, **detail):
-        kind, op = self._blame(hist, i)
-        if kind == "receiver-changed":
+        k = self._lazy_culprit(hist, i)
+        op = hist[k - 1]
+        if op["tgt"] == i + 1 and op["op"] not in OBSERVATIONS:
             for ob in d:
-                self._find(f"receiver-changed:{op['op']}:{ob.lstrip('@')}", hist, text, object=i + 1, observable=ob,
+                self._find(f"receiver-changed:{op['op']}:{ob.lstrip('@')}", hist[:k], text, object=i + 1, observable=ob,
                            mode="lazy", **detail)
         else:
-            self._find(f"sibling-influenced:{op['op']}", hist, text, object=i + 1, observables=d, mode="lazy", **detail)
+            self._find(f"sibling-influenced:{op['op']}", hist[:k], text, object=i + 1, observables=d, mode="lazy", **detail)
+
+    @staticmethod
+    def _blame(hist, i):
+        mine = [op for op in hist if op["tgt"] == i + 1 and op["op"] not in OBSERVATIONS]
+        return mine[0] if mine else {"op": "base", "tgt": 0, "arg": []}
 
     def _lazy_cmp(self, pool, hist, i, s):
         prev = pool.snaps[i]
@@ -586,7 +630,7 @@ class Replayer:
         for i in order:
             s = self._observe(pool.objs[i])
             self._lazy_cmp(pool, hist, i, s)
-            created_by = hist[abs_objs[i]["born"] - 1] if abs_objs[i]["born"] else self._blame(hist, i)[1]
+            created_by = hist[abs_objs[i]["born"] - 1] if abs_objs[i]["born"] else self._blame(hist, i)
             self.stats["model_compares"] += 1
             bad, order_only = model_mismatch(self.project(abs_objs[i]), s, pool.objs[i], pool.objs)
             for ob, exp, got in bad:
@@ -596,8 +640,7 @@ class Replayer:
                            object=i + 1, observable=ob, expected=exp, observed=got, mode="lazy")
             if self.refs:
                 self.stats["ref_compares"] += 1
-                ref = self.reference(hist, abs_objs, i + 1)
-                d = diff(ref, s, ident=False)
+                d, ref = self.ref_diff(hist, abs_objs, i + 1, s)
                 if d:
                     self._lazy_changed(hist, i, d, f"object #{i + 1} differs from the object built from its own derivation "
                                        "chain alone (lazy replay): " +
